@@ -112,8 +112,7 @@ def c11_dir(job, drv):
         # zero-filled file of the full length, and a few other full-length garbage files
         others = {}
         fails = {"empty": [], "wrong": []}
-        for label, data in (("zero-filled", bytes(size)), ("ff-filled", b"\xff" * size),
-                            ("second-half", B[size // 2:]), ("reversed", B[::-1])):
+        for label, data in (("zero-filled", bytes(size)), ("ff-filled", b"\xff" * size)):
             others[label] = attempt(label, size, data, seq[len(label) % len(seq)])
         # ---- codec facts on the real pickle ----
         undecodable = 0
